@@ -49,9 +49,9 @@ var pool = []text{
 	{"x.yang", `module x { ` + H("x") + ` import v { prefix v; } identity xi { base v:vi; } typedef xt { type v:vt; } leaf xl { type xt; } leaf xl2 { type v:vt; } container xu { uses v:vg; } grouping xg { uses v:vg; } container xu2 { uses xg; } leaf xr { type identityref { base v:vi; } } }`, "x", true},
 	// two revisions of a submodule, the module that includes it (date-less) and an importer of that module
 	{"sm2.yang", `module sm { ` + H("sm") + ` revision 2022-02-02; revision 2020-01-01; typedef st { type boolean; } grouping sg { leaf own { type st; } } identity si; identity sk { base si; } leaf q { type st; } }`, "sm@2022-02-02", true},
-	{"sm.yang", `module sm { ` + H("sm") + ` revision 2020-01-01; include ss; leaf q { type st; } container smc { uses sg; } }`, "sm@2020-01-01", true},
-	{"ss1.yang", `submodule ss { belongs-to sm { prefix sm; } revision 2020-01-01; typedef st { type int8; } grouping sg { leaf old { type st; } } container sc { leaf a { type st; } } identity si; identity sold; }`, "ss@2020-01-01", true},
-	{"ss2.yang", `submodule ss { belongs-to sm { prefix sm; } revision 2021-06-01; typedef st { type string; } grouping sg { leaf new { type st; } leaf-list nl { type st; } } container sc { leaf b { type st; } } identity si; identity sj { base si; } }`, "ss@2021-06-01", true},
+	{"sm.yang", `module sm { ` + H("sm") + ` revision 2020-01-01; include ss; leaf q { type st; } container smc { uses sg; } identity smb; }`, "sm@2020-01-01", true},
+	{"ss1.yang", `submodule ss { belongs-to sm { prefix sm; } revision 2020-01-01; typedef st { type int8; } grouping sg { leaf old { type st; } } container sc { leaf a { type st; } } identity si; identity sold; identity so { base sm:smb; } }`, "ss@2020-01-01", true},
+	{"ss2.yang", `submodule ss { belongs-to sm { prefix sm; } revision 2021-06-01; typedef st { type string; } grouping sg { leaf new { type st; } leaf-list nl { type st; } } container sc { leaf b { type st; } } identity si; identity sj { base si; } identity sn { base sm:smb; } }`, "ss@2021-06-01", true},
 	{"su.yang", `module su { ` + H("su") + ` import sm { prefix sm; } identity sud { base sm:si; } leaf r { type identityref { base sm:si; } } leaf t { type sm:st; } container suc { uses sm:sg; } }`, "su", true},
 	// a base that only the older submodule revision defines (and the later module revision lacks): once
 	// the later one is loaded the base must be reported as unresolved, whatever an earlier run found
